@@ -1,11 +1,13 @@
 // C20 harness, built with the race detector. Concurrent mixes generated from the
 // operations the tool itself performs or permits:
-//   encode    k goroutines x {Write, WriteUncompressed, Copy} on ONE profile, with the verif gate
-//             sleeping between preEncode and marshal to widen the window; every result must
-//             equal the sequential encoding
-//   binutils  concurrent SourceLine on one ObjFile while the tool configuration is being
-//             changed (copy-on-write rep); results must equal the sequential ones
-//   options   (run through the c10 harness under -race by bin/check: web handlers, option store)
+//
+//	encode    k goroutines x {Write, WriteUncompressed, Copy} on ONE profile, with the verif gate
+//	          sleeping between preEncode and marshal to widen the window; every result must
+//	          equal the sequential encoding
+//	binutils  concurrent SourceLine on one ObjFile while the tool configuration is being
+//	          changed (copy-on-write rep); results must equal the sequential ones
+//	options   (run through the c10 harness under -race by bin/check: web handlers, option store)
+//
 // Data races are reported by the runtime on stderr / GORACE log_path and turned into
 // violations by bin/check.
 package main
@@ -33,7 +35,7 @@ func bigProfile(n int) *profile.Profile {
 		g := vlib.AFn{Name: fmt.Sprintf("gn%d", i%31), Sys: "g", File: "g.c"}
 		ss = append(ss, vlib.ASample{Vals: []int64{int64(i), int64(i * 3)},
 			Locs: []vlib.ALoc{{Map: m, Rel: int64(i%50 + 1), Lines: []vlib.ALine{{Fn: f, Line: int64(i)}}}, {Map: m, Rel: int64(i%7 + 60), Lines: []vlib.ALine{{Fn: g, Line: 2}}}},
-			Lab: []vlib.ASLab{{K: "k", V: []string{fmt.Sprintf("v%d", i%11)}}}, Num: []vlib.ANLab{{K: "bytes", V: []int64{int64(i)}, U: []string{"bytes"}}}})
+			Lab:  []vlib.ASLab{{K: "k", V: []string{fmt.Sprintf("v%d", i%11)}}}, Num: []vlib.ANLab{{K: "bytes", V: []int64{int64(i)}, U: []string{"bytes"}}}})
 	}
 	c := vlib.NewConc(0)
 	c.Share = 1
@@ -108,18 +110,37 @@ func binutilsPart(rounds int) {
 		repo = "/repo"
 	}
 	exe := filepath.Join(repo, "internal", "binutils", "testdata", "exe_linux_64")
+	addrs := []uint64{0x40052d, 0x400540, 0x400560, 0x40053c}
+	// sequential answers under each configuration a reader may legitimately hold
+	seq := map[uint64]map[string]bool{}
+	for _, fast := range []bool{false, true} {
+		bu := &binutils.Binutils{}
+		bu.SetFastSymbolization(fast)
+		f, err := bu.Open(exe, 0, 0, 0, "")
+		if err != nil {
+			run.Note("binutils part skipped: " + err.Error())
+			return
+		}
+		for _, a := range addrs {
+			fr, err := f.SourceLine(a)
+			if seq[a] == nil {
+				seq[a] = map[string]bool{}
+			}
+			seq[a][fmt.Sprint(fr, err)] = true
+		}
+		f.Close()
+	}
 	bu := &binutils.Binutils{}
-	f, err := bu.Open(exe, 0, 0, 0, "")
+	shared, err := bu.Open(exe, 0, 0, 0, "")
 	if err != nil {
 		run.Note("binutils part skipped: " + err.Error())
 		return
 	}
-	defer f.Close()
-	addrs := []uint64{0x40052d, 0x400540, 0x400560, 0x40053c}
-	seq := map[uint64]string{}
-	for _, a := range addrs {
-		fr, err := f.SourceLine(a)
-		seq[a] = fmt.Sprint(fr, err)
+	defer shared.Close()
+	check := func(a uint64, fr interface{}, err error) {
+		if got := fmt.Sprint(fr, err); !seq[a][got] {
+			run.Violate("binutils", "concurrent-sourceline-differs", fmt.Sprintf("SourceLine(%#x) = %s concurrently; sequentially one of %v", a, got, seq[a]), nil, nil)
+		}
 	}
 	for round := 0; round < rounds; round++ {
 		var wg sync.WaitGroup
@@ -132,18 +153,36 @@ func binutilsPart(rounds int) {
 						run.Violate("binutils", "binutils-panic", fmt.Sprint(x), nil, nil)
 					}
 				}()
-				if g == 5 {
-					// reconfigure while others symbolize: readers must keep a consistent configuration
-					bu.SetFastSymbolization(round%2 == 0)
-					bu.SetTools("")
-					_ = bu.String()
-					return
-				}
-				for _, a := range addrs {
-					fr, err := f.SourceLine(a)
-					if got := fmt.Sprint(fr, err); got != seq[a] {
-						run.Violate("binutils", "concurrent-sourceline-differs", fmt.Sprintf("SourceLine(%#x) = %s concurrently, %s sequentially", a, got, seq[a]), nil, nil)
+				switch {
+				case g == 5:
+					// reconfigure while others open files and symbolize: every reader must keep the
+					// configuration it obtained (copy-on-write), never see one half updated
+					for k := 0; k < 4; k++ {
+						bu.SetFastSymbolization((round+k)%2 == 0)
+						bu.SetTools("")
+						_ = bu.String()
 					}
+				case g < 2:
+					// an ObjFile opened before the reconfiguration
+					for _, a := range addrs {
+						fr, err := shared.SourceLine(a)
+						check(a, fr, err)
+					}
+				default:
+					// open a fresh ObjFile: reads the current configuration, first SourceLine starts the tool
+					f, err := bu.Open(exe, 0, 0, 0, "")
+					if err != nil {
+						run.Violate("binutils", "concurrent-open-fails", err.Error(), nil, nil)
+						return
+					}
+					for _, a := range addrs {
+						fr, err := f.SourceLine(a)
+						check(a, fr, err)
+					}
+					if _, err := f.Symbols(nil, 0); err != nil {
+						run.Violate("binutils", "concurrent-symbols-fails", err.Error(), nil, nil)
+					}
+					f.Close()
 				}
 			}(g)
 		}
@@ -161,5 +200,5 @@ func main() {
 	encodePart(n)
 	binutilsPart(n / 4)
 	run.Sample(map[string]interface{}{"encode_rounds": n, "binutils_rounds": n / 4})
-	run.Finish("concurrent mixes: rounds of 2..7 goroutines each doing Write / WriteUncompressed / Copy on one shared 400-sample profile with the verif gate sleeping between preEncode and marshal, every output compared with the sequential bytes; 5 goroutines symbolizing through one ObjFile while a sixth reconfigures the tools; all under the race detector; non-trivial = distinct operation mix")
+	run.Finish("concurrent mixes: rounds of 2..7 goroutines each doing Write / WriteUncompressed / Copy on one shared 400-sample profile with the verif gate sleeping between preEncode and marshal, every output compared with the sequential bytes; 2 goroutines symbolizing through an ObjFile opened earlier and 3 opening fresh ObjFiles (first SourceLine, Symbols) while a sixth toggles fast symbolization and re-selects the tools, every answer compared with the sequential answers under the two configurations; all under the race detector; non-trivial = distinct operation mix")
 }
